@@ -6,7 +6,10 @@ import (
 	"io"
 	"os"
 	"os/exec"
+	"path/filepath"
+	"sort"
 	"strconv"
+	"strings"
 )
 
 func init() {
@@ -82,7 +85,41 @@ func vCrashPoint(at string) {
 	vCrashNow()
 }
 
-func vstubCachedDumpFile(binary string) (string, error) { return "cache/dump", nil }
+// names as the real command makes them: <cache dir>/<base name of the binary>-<hash of its path>, temporary
+// files <that name>.tmp<random> - so that code which lists or matches file names meets realistic ones
+func vstubCachedDumpFile(binary string) (string, error) { return "cache/bin-0a1b2c3d", nil }
+
+// vstubGlob: the existing files of the model file system whose names match the pattern (real matching
+// on the concrete names), in directory order.
+func vstubGlob(pattern string) ([]string, error) {
+	var names, out []string
+	for n := range vFiles {
+		names = append(names, n)
+	}
+	sort.Strings(names)
+	for _, n := range names {
+		if ok, _ := filepath.Match(pattern, n); ok && vFiles[n].exists {
+			out = append(out, n)
+		}
+	}
+	return out, nil
+}
+
+// vstubReadFull: io.ReadFull over the Read stub.
+func vstubReadFull(r io.Reader, b []byte) (int, error) {
+	f, ok := r.(*os.File)
+	if !ok {
+		return 0, errors.New("unmodelled reader")
+	}
+	n, err := vstubFileRead(f, b)
+	if n == len(b) {
+		return n, nil
+	}
+	if err == nil || n > 0 {
+		return n, io.ErrUnexpectedEOF
+	}
+	return n, io.EOF
+}
 
 func vstubOpen(name string) (*os.File, error) {
 	if !vFS(name).exists {
@@ -110,7 +147,10 @@ func vstubCreateTemp(dir, pattern string) (*os.File, error) {
 		return nil, errors.New("create failed")
 	}
 	vTmpSeq++
-	name := dir + "/tmp" + strconv.Itoa(vTmpSeq)
+	name := dir + "/" + pattern + strconv.Itoa(vTmpSeq)
+	if i := strings.LastIndex(pattern, "*"); i >= 0 {
+		name = dir + "/" + pattern[:i] + strconv.Itoa(vTmpSeq) + pattern[i+1:]
+	}
 	st := vFS(name)
 	st.exists, st.content = true, ""
 	f := &os.File{}
@@ -140,6 +180,9 @@ func vstubFileRead(f *os.File, b []byte) (int, error) {
 func vstubFileWrite(f *os.File, b []byte) (int, error) {
 	h := vHandles[f]
 	st := vFS(h.name)
+	if vCrashed {
+		return len(b), nil
+	}
 	st.content += string(b)
 	return len(b), nil
 }
@@ -160,6 +203,9 @@ func vstubFileClose(f *os.File) error {
 func vstubFileSync(f *os.File) error { vCrashPoint("sync"); return nil }
 
 func vstubRename(from, to string) error {
+	if vCrashed {
+		return nil
+	}
 	if vChoice("rename.fails", 2) == 1 {
 		return errors.New("rename failed")
 	}
@@ -172,6 +218,10 @@ func vstubRename(from, to string) error {
 }
 
 func vstubRemove(name string) error {
+	if vCrashed {
+		// a crashed process runs no deferred calls (the native replay signals the crash by a panic, which does)
+		return nil
+	}
 	st := vFS(name)
 	st.exists, st.content = false, ""
 	return nil
@@ -355,7 +405,7 @@ func H_Objdump() {
 	vWriters = map[*bufio.Writer]*os.File{}
 	vPending = map[*bufio.Writer]string{}
 	vDump, vDumpFails = d2, 0
-	vCrashOn, vWriteFail = false, false
+	vCrashOn, vWriteFail, vCrashed = false, false, false
 	before := vRunCalls
 	var p2 string
 	var e2 error
